@@ -66,7 +66,19 @@ func TestC07Stream(t *testing.T) {
 		base := frames[0]
 		for i := 0; i < nr; i++ {
 			var b []byte
-			switch gen.Pick(rt, "rejected_kind", 4) {
+			rk := gen.Pick(rt, "rejected_kind", 5)
+			switch rk {
+			case 4: // a flow-mod whose only action is a Nicira action of a subtype nobody decodes (a different one each time)
+				b = make([]byte, 80)
+				b[0], b[1] = 4, 14
+				binary.BigEndian.PutUint16(b[48:], 1)
+				binary.BigEndian.PutUint16(b[50:], 4)
+				binary.BigEndian.PutUint16(b[56:], 4)
+				binary.BigEndian.PutUint16(b[58:], 24)
+				binary.BigEndian.PutUint16(b[64:], 0xffff)
+				binary.BigEndian.PutUint16(b[66:], 16)
+				binary.BigEndian.PutUint32(b[68:], 0x2320)
+				binary.BigEndian.PutUint16(b[72:], uint16(rapid.IntRange(60, 4000).Draw(rt, "rej_nx_subtype")))
 			case 3: // a flow-removed whose match carries a field number nobody decodes (class 0x8000 or 0x0001)
 				b = make([]byte, 64)
 				b[0], b[1] = 4, 11
@@ -93,8 +105,12 @@ func TestC07Stream(t *testing.T) {
 			}
 			binary.BigEndian.PutUint16(b[2:], uint16(len(b)))
 			binary.BigEndian.PutUint32(b[4:], 0x70000000+uint32(i))
-			if pm, perr := of.Parse(append([]byte{}, b...)); perr == nil && !isNilMsg(pm) {
-				continue // this tree parses it: not a rejected frame
+			// (the unknown-subtype frames are not parsed beforehand: the parser goroutines are to be the first
+			// to meet each subtype, several of them at the same time)
+			if rk != 4 {
+				if pm, perr := of.Parse(append([]byte{}, b...)); perr == nil && !isNilMsg(pm) {
+					continue // this tree parses it: not a rejected frame
+				}
 			}
 			// insert at a random position
 			pos := rapid.IntRange(0, len(frames)).Draw(rt, "rej_pos")
